@@ -182,21 +182,24 @@ def run(ctx, rep):
     # check_any: error iff !is_valid_any_id(data_word[9])
     ca = DW + "DataWordSanityChecker::check_any"
     if ca in f.fns:
-        out = ev.collect_ifs(ca, [Slice("W", 0, 10)])
-        cs = [c for c in out if "cond" in c]
-        ok = len(cs) == 1
-        if ok:
-            k = ckey(cs[0]["cond"])
-            # every atom must be over W[79:72]
-            ok = "W[79:72]" in k and "W[7" in k and k.startswith(("and[", "not(", "or["))
-            import re
-            # the negation of a range test has the canonical form or[Gt(v,hi);Lt(v,lo)]
-            ranges = set(re.findall(r"in\(\{b0\.\.7=W\[79:72\]\},(\d+)\.\.=(\d+)\)", k))
-            neg = set((str(int(lo, 16)), str(int(hi, 16))) for hi, lo in re.findall(r"or\[Gt\(\{b0\.\.7=W\[79:72\]\},(0x[0-9a-f]+)\);Lt\(\{b0\.\.7=W\[79:72\]\},(0x[0-9a-f]+)\)\]", k))
-            want_r = {(str(a), str(b)) for a, b in dwo["il"] + dwo["ml"] + dwo["ol"]}
-            ok = ok and k.startswith("and[") and ((ranges == want_r and k.count("not(") == len(want_r)) or (neg == want_r and not ranges and k.count("or[") == len(want_r)))
+        # decided per concrete identifier (all 256): Err exactly for the identifiers outside the documented set
+        wrong, k = [], ""
+        for i in range(256):
+            ev.assume = {}
+            ev.assume_bits("W", 72, 8, i)
+            try:
+                r = vkey(ev.call_fn(ca, [Slice("W", 0, 10)]))
+            except Unsupported as e:
+                r = "unevaluable %s" % e
+            finally:
+                ev.assume = {}
+            verdict = "Ok" if r.startswith("Result::Ok(") else ("Err" if r.startswith("Result::Err(") else r[:80])
+            if verdict != ("Ok" if i in valid else "Err"):
+                wrong.append((hex(i), verdict))
+        ok = not wrong
+        k = "identifiers with the wrong verdict: %s" % wrong[:8]
         rep.check(ok, "R11.2", "R11.2|check_any", "check_any: [E70] iff byte 9 is outside all documented ID ranges", ca,
-                  "check_any condition is %s" % (ckey(cs[0]["cond"]) if cs else "absent"))
+                  "check_any: %s" % k)
     else:
         rep.missing("R11.2", ca)
     # IB lane and lane-active
